@@ -211,12 +211,14 @@ def _pred(val, spec):
 
 
 def load_findings(pid):
-    path = os.path.join(ROOT, "known_findings.json")
-    if not os.path.exists(path):
-        return []
-    with open(path) as f:
-        allf = json.load(f)
-    return [e for e in allf.get("findings", []) if e["property"] == pid]
+    out = []
+    for path in (os.path.join(ROOT, "known_findings.json"), os.path.join(ROOT, "findings.d", f"{pid}.json")):
+        if not os.path.exists(path):
+            continue
+        with open(path) as f:
+            allf = json.load(f)
+        out += [e for e in allf.get("findings", []) if e["property"] == pid]
+    return out
 
 
 def match_finding(findings, case, fail):
